@@ -60,6 +60,49 @@ Definition run_scan (q : str) (env : tenv) (samples : list (option tid)) (inargs
   | _ => lit "PARSE-ERR"
   end.
 
+Definition dec_selem (s : sexp) : option selem :=
+  match s with
+  | SList [Atom k; Atom a; Atom b] =>
+      if str_eqb k (lit "struct") then obind (atom_nat a) (fun pt => obind (atom_nat b) (fun t => Some (SEStruct pt t)))
+      else if str_eqb k (lit "ptr") then obind (atom_nat a) (fun pt => obind (atom_nat b) (fun t => Some (SEPtrStruct pt t)))
+      else None
+  | SList [Atom k; Atom a] =>
+      if str_eqb k (lit "map") then obind (atom_nat a) (fun mt => Some (SEMap mt)) else None
+  | _ => None
+  end.
+
+Definition dec_cells (s : sexp) : option (list cell) :=
+  match s with SList l => omap dec_cell l | _ => None end.
+
+(* one printed row: the elements appended to each destination slice *)
+Definition print_row (vals : list val) : str := paren (map print_dest vals).
+
+Definition run_scanall (q : str) (env : tenv) (samples : list (option tid)) (inargs : list arg)
+  (cols : list str) (rows : list (list cell)) (elems : list selem) : str :=
+  match parse q with
+  | Ok es =>
+      match bind_types env es samples with
+      | BErr e => lit "PREPARE-ERR " ++ berr_name e
+      | BOk tbe =>
+          match bind_inputs env tbe inargs with
+          | BErr e => lit "QUERY-ERR " ++ berr_name e
+          | BOk p =>
+              if negb (has_outputs p) then lit "NO-OUTPUTS"
+              else
+                match rows with
+                | [] => lit "NOROWS"
+                | _ =>
+                    match getall_rows env (pq_outputs p) cols elems rows [] with
+                    | SOk acc => concat_sep sp (lit "GETALL-OK" :: map print_row acc)
+                    | SErr (SBind e) => lit "GETALL-ERR " ++ berr_name e
+                    | SErr SConv => lit "GETALL-ERR conv"
+                    end
+                end
+          end
+      end
+  | _ => lit "PARSE-ERR"
+  end.
+
 Definition run_scan_line (req : list sexp) : option str :=
   match req with
   | [Atom cmd; Atom q; SList types; SList samples; SList inargs; SList cols; SList cells; SList dests] =>
@@ -69,6 +112,13 @@ Definition run_scan_line (req : list sexp) : option str :=
         | Some input, Some env, Some ss, Some ia, Some cs, Some ce, Some ds =>
             Some (run_scan input env ss ia cs ce ds)
         | _, _, _, _, _, _, _ => Some (lit "BAD-REQUEST scan")
+        end
+      else if str_eqb cmd (lit "scanall") then
+        match unxhex q, omap dec_tdef types, omap dec_sample samples, omap dec_arg inargs,
+              omap dec_col cols, omap dec_cells cells, omap dec_selem dests with
+        | Some input, Some env, Some ss, Some ia, Some cs, Some rs, Some es =>
+            Some (run_scanall input env ss ia cs rs es)
+        | _, _, _, _, _, _, _ => Some (lit "BAD-REQUEST scanall")
         end
       else None
   | _ => None
